@@ -1,18 +1,24 @@
 """C07 -- an HTTPS request is sent only over a connection verified as configured.
 
-stage 1  TLC checks spec/TLSVerify.tla on the whole lattice (cfg x server): the three clauses of the
+stage 1  TLC checks spec/TLSVerify.tla on the lattice (cfg x server): the three clauses of the
          statement as invariants on every state of the implementation-shaped model, Monotone,
-         WithinExpectation, step-ordering action properties; coverage is read back (every model
-         action and every outcome class must be reached, no anomalous outcome).
+         WithinExpectation, step-ordering action properties (+ termination in thorough); coverage is
+         read back (every model action and every outcome class must be reached, no anomalous
+         outcome).  Run with KnownDefects = {} (the design the property asks for: every clause
+         strict) and with KnownDefects = all on the affected route (the code as it is: the warning
+         clause may fail only on the recorded signature, and must fail there).
 stage 2  TLC (spec/MC_TLSVerify.tla) enumerates the lattice by index and EMITS lattice points with
          the Rules' three-valued expectation and the Model's predicted observation.  quick: a 2-way
-         covering array of the factor table TLC printed + a seeded sample; thorough: everything.
+         covering array of the factor table TLC printed + every point within two settings of the
+         default + a seeded sample; thorough: the whole lattice, sharded.
 stage 3  every emitted point is executed against the real urllib3: real TLS handshake over the
          create_connection seam against a trustme-minted party (vh/tlsnet.py) that records, on the
          SERVER side, handshake / SNI / CONNECT / request bytes / EOF; pyOpenSSL points run in
          separate worker processes after inject_into_urllib3().
 stage 4  the recorded facts go back to TLC (spec/TLSVerify_Trace.tla): the same Rules clauses give
          the hard verdict per trace, comparison with the Model's run gives the drift verdict.
+Python never decides the property: it chooses which indices to run, drives the code, renames
+fields, counts, and matches TLC's failing traces against known_findings.d/C07.json.
 """
 from __future__ import annotations
 
